@@ -135,6 +135,21 @@ def impl(line):
         if op == 'mdecompressd':
             rules = p_rules(T); s = mk_buf(T.next()); d = DirectionIndicator(DIRS[T.next()])
             return show_buf(manager('CoAP', rules).decompress(s, direction=d))
+        if op == 'mo':
+            from microschc.matching import operators as MOps
+            name = T.next(); f = mk_field(p_field(T))
+            if name == 'ig': v = MOps.ignore(f)
+            else:
+                tv = mk_tv(p_tv(T))
+                v = {'eq': MOps.equal, 'msb': MOps.most_significant_bits, 'mm': MOps.match_mapping}[name](f, tv)
+            return 'true' if v is True else 'false' if v is False else repr(v)
+        if op == 'act':
+            from microschc.actions import compression as Acts
+            name = T.next(); f = mk_field(p_field(T))
+            if name == 'ns': return show_buf(Acts.not_sent(f))
+            if name == 'vs': return show_buf(Acts.value_sent(f))
+            if name == 'ms': return show_buf(Acts.mapping_sent(f, mk_tv(p_tv(T))))
+            if name == 'lsb': return show_buf(Acts.least_significant_bits(f, T.nat()))
         if op == 'uroundtrip':
             # explicit (possibly semantic) stack: parse, rule by recipe from the parsed fields, compress, decompress WITH the
             # parser as unparser (C01 through the un-parsing path, C19)
@@ -228,6 +243,27 @@ def oracle(line, out):
         if 'c09' in meta:
             raw = p['raw'][2:]
             if err or out.split(' ')[1][2:] != raw: v.append(('C09', f'computed fields not regenerated: {out} vs {raw}'))
+    elif op == 'mo':
+        name = T.next(); f = p_field(T); val = f['value'][2:]
+        if name == 'ig': exp = True
+        else:
+            tv = p_tv(T)
+            if name == 'eq': exp = val == tv[1][2:]
+            elif name == 'msb': exp = len(tv[1]) - 2 <= len(val) and val.startswith(tv[1][2:])
+            else: exp = any(k[2:] == val for k, _ in tv[1])
+        if out != ('true' if exp else 'false'):
+            v.append(('C04', f'matching operator {name} gives {out}, the operator holds: {exp}'))
+    elif op == 'act':
+        name = T.next(); f = p_field(T); val = f['value'][2:]
+        if name == 'ns': exp = ''
+        elif name == 'vs': exp = val
+        elif name == 'ms':
+            tv = p_tv(T); hit = [i for k, i in tv[1] if k[2:] == val]
+            exp = hit[0][2:] if hit else None
+        else:
+            n = T.nat(); exp = val[len(val) - n:] if n <= len(val) else None
+        if exp is not None and (err or out[2:] != exp):
+            v.append(('C02', f'compression action {name} gives {out}, residue is {exp!r}'))
     elif op == 'uroundtrip':
         T.next(); T.next(); T.next(); pk = T.next()
         if 'c01u' in meta and (err or out.split(' ')[1][2:] != pk[2:]):
@@ -427,7 +463,7 @@ def gen(props, tier, rng):
                     yield f'schc roundtrip {e_packet(pkt)} {e_rule(r)} # c01'
                 if 'C03' in props:
                     s = spec.ref_compress(pkt, r)
-                    side = 'L' if (len(s) % 8 == 0 and rng.random() < 0.5) else 'R'
+                    side = rng.choice('LR')      # a SCHC packet is any bit string: either padding side, any length
                     yield f'schc decompress {side}:{s} {e_rule(r)} # conforming'
                 if 'C20' in props:
                     s = spec.ref_compress(pkt, r)
@@ -450,7 +486,7 @@ def gen(props, tier, rng):
                     for v, c in zip(vals, order):
                         pkt = rulegen.packet_from_fields([('a', 0, rulegen.rbits(rng, 3)), ('w', 0, format(v, '04b'))], rng.choice(['', '', rulegen.rbits(rng, 3)]))
                         sc = spec.ref_compress(pkt, rule)
-                        yield f"schc decompress {'L' if len(sc) % 8 == 0 and rng.random() < 0.5 else 'R'}:{sc} {e_rule(rule)} # conforming"
+                        yield f"schc decompress {rng.choice('LR')}:{sc} {e_rule(rule)} # conforming"
             # conforming peers use sizes the library's own compressor may never produce: boundaries of §7.4.2
             for n in [0, 14, 15, 254, 255, 256, 300] + ([] if q else [4095, 65535]):
                 for cda in ('vs', 'lsb'):
@@ -462,13 +498,21 @@ def gen(props, tier, rng):
                         {'id': 'v', 'len': 0, 'pos': 0, 'dir': 'B', 'mo': 'ig' if cda == 'vs' else 'msb', 'cda': cda, 'tv': ('b', 'L:' + pat)},
                         {'id': 'w', 'len': 5, 'pos': 0, 'dir': 'B', 'mo': 'mm', 'cda': 'ms', 'tv': ('m', mp)}]}
                     s = spec.ref_compress(pkt, rule)
-                    yield f'schc decompress R:{s} {e_rule(rule)} # conforming'
+                    yield f"schc decompress {rng.choice('LR')}:{s} {e_rule(rule)} # conforming"
         for i in range(NS):
             stack = STACKS[i % len(STACKS)]
             data, pkt = rulegen.gen_stack(rng, stack, correct=True)
             raw = 'L:' + packets.bits_of(data)
             r = stack_rule(rng, pkt, compute_prob=0.6)
             if 'C02' in props: yield f'schc compress {e_packet(pkt)} {e_rule(r)} # aligned'
+            if 'C02' in props:
+                # the action functions themselves (actions/compression.py), on left-padded parsed fields
+                for pf, rf in list(zip(pkt['fields'], r['fields']))[:6]:
+                    L = len(pf['value']) - 2
+                    yield f"schc act ns {e_field(pf)}"
+                    yield f"schc act vs {e_field(pf)}"
+                    yield f"schc act lsb {e_field(pf)} {rng.randrange(0, L + 1)}"
+                    if rf['tv'][0] == 'm': yield f"schc act ms {e_field(pf)} {e_tv(rf['tv'])}"
             if 'C01' in props or 'C09' in props:
                 tags = ('c01 ' if 'C01' in props else '') + ('c09' if 'C09' in props and any(f['cda'] == 'co' for f in r['fields']) else '')
                 yield f'schc roundtrip {e_packet(pkt)} {e_rule(r)} # {tags}'
@@ -489,7 +533,7 @@ def gen(props, tier, rng):
                 yield f"schc mroundtrip {esc(stack)} {e_rules(rsd)} {raw} {rng.choice('UD')} {rng.choice(['first', 'best'])} # {tags.replace('c18 ', '')}"
             if 'C03' in props:
                 s = spec.ref_compress(pkt, r)
-                yield f'schc decompress R:{s} {e_rule(r)} # conforming'
+                yield f"schc decompress {rng.choice('LR')}:{s} {e_rule(r)} # conforming"
             if 'C20' in props:
                 s = spec.ref_compress(pkt, r)
                 rs = _ruleset_with(rng, pkt, r)
@@ -556,6 +600,16 @@ def gen(props, tier, rng):
             for r in rules[:3]:
                 for pf, rf in zip(pkt['fields'], r['fields']):
                     if rng.random() < 0.3: yield f'schc fieldmatch {e_field(pf)} {e_rfield(rf)}'
+                    if 'C04' in props and rng.random() < 0.3:
+                        # the operator functions themselves (matching/operators.py)
+                        yield f"schc mo ig {e_field(pf)}"
+                        if rf['tv'][0] == 'b':
+                            yield f"schc mo eq {e_field(pf)} {e_tv(rf['tv'])}"
+                            yield f"schc mo msb {e_field(pf)} {e_tv(rf['tv'])}"
+                            yield f"schc mo eq {e_field(pf)} b {pf['value'][0]}:{pf['value'][2:]}"
+                            yield f"schc mo msb {e_field(pf)} b {rng.choice('LR')}:{pf['value'][2:2 + rng.randrange(0, len(pf['value']) - 1)]}"
+                        else:
+                            yield f"schc mo mm {e_field(pf)} {e_tv(rf['tv'])}"
     # ---------------------------------------------------------------- C18
     if 'C18' in props:
         N = 60 if q else 600
